@@ -433,6 +433,24 @@ fn binary_doc(rng: &mut Rng) -> String {
     }
 }
 
+/// scalars and collections under every core tag, with contents that fit the tag, contradict it or are empty
+fn tagged_doc(rng: &mut Rng) -> String {
+    const TAGS: [&str; 16] = [
+        "!!null", "!!bool", "!!int", "!!float", "!!str", "!!binary", "!!timestamp", "!!seq", "!!map", "!!set", "!!omap", "!!pairs", "!", "!local",
+        "!<tag:yaml.org,2002:null>", "!<tag:yaml.org,2002:str>",
+    ];
+    const BODIES: [&str; 14] = ["", "x", "\"\"", "~", "null", "true", "12", "1.5", "[1, 2]", "{a: b}", "'q'", "2001-12-14", "=", "|\n  block\n"];
+    let node = |rng: &mut Rng| format!("{} {}", rng.pick(&TAGS), rng.pick(&BODIES));
+    match rng.below(6) {
+        0 => format!("{}\n", node(rng)),
+        1 => format!("[{}, {}]\n", node(rng).replace('\n', " "), node(rng).replace('\n', " ")),
+        2 => format!("- {}\n- {}\n", node(rng).replace("|\n  block\n", "x"), node(rng).replace("|\n  block\n", "y")),
+        3 => format!("k: {}\n", node(rng).replace("|\n  block\n", "|\n    block")),
+        4 => format!("--- {}\n--- {}\n", node(rng).replace("|\n  block\n", "z"), node(rng).replace("|\n  block\n", "w")),
+        _ => format!("{}: v\n", node(rng).replace("|\n  block\n", "key")),
+    }
+}
+
 /// documents for the validated struct: failing fields with and without a YAML key that maps back
 fn validation_doc(rng: &mut Rng) -> String {
     let mut s = String::new();
@@ -828,14 +846,28 @@ pub fn gen_case(tier: Tier, seed: u64, idx: u64) -> Case {
         _ => Target::Json,
     };
     let mut origin = Vec::new();
-    let pick = rng.below(16);
+    let pick = rng.below(19);
     // `!!binary` payloads go to the targets that decode them, validation documents to the validated struct
     let (target, fam) = match pick {
         12 => {
             let t = *rng.pick(&[T01::Bytes, T01::Fam(Target::Json), T01::Fam(Target::Str), T01::Fam(Target::VecS), T01::Fam(Target::Map)]);
             (t, if let T01::Fam(f) = t { f } else { Target::Json })
         }
-        13 => (T01::Fam(Target::Cfg), Target::Cfg),
+        13 | 17 => (T01::Fam(Target::Cfg), Target::Cfg),
+        16 => {
+            let t = *rng.pick(&[
+                T01::Fam(Target::Unit),
+                T01::Fam(Target::Json),
+                T01::Fam(Target::OptS),
+                T01::Fam(Target::Bool),
+                T01::Fam(Target::I64),
+                T01::Fam(Target::Str),
+                T01::Fam(Target::VecS),
+                T01::Fam(Target::En),
+                T01::Bytes,
+            ]);
+            (t, if let T01::Fam(f) = t { f } else { Target::Json })
+        }
         _ => (target, fam),
     };
     let text: String = match pick {
@@ -886,6 +918,22 @@ pub fn gen_case(tier: Tier, seed: u64, idx: u64) -> Case {
         13 => {
             origin.push("validation".to_string());
             validation_doc(&mut rng)
+        }
+        16 => {
+            origin.push("tagged".to_string());
+            tagged_doc(&mut rng)
+        }
+        17 => {
+            origin.push("alias-type-error".to_string());
+            // an anchored node of the wrong shape, used through an alias where the struct wants something
+            // else (an error with two locations); the definition sits 0..200 columns into its line
+            let pad = " ".repeat(*rng.pick(&[0usize, 1, 5, 63, 64, 65, 70, 120, 200]));
+            let def = *rng.pick(&["[1, 2]", "{a: b}", "text é", "12"]);
+            match rng.below(3) {
+                0 => format!("list: {pad}&l {def}\nn: 5\nname: *l\n"),
+                1 => format!("name: x\nlist: {pad}&l {def}\nn: *l\n"),
+                _ => format!("# c\nname: &q {pad}{def}\nn: 1\nlist: [1, *q]\nflag: *q\n"),
+            }
         }
         _ => {
             origin.push("mutated".to_string());
